@@ -339,6 +339,67 @@ def main():
                              dict(dim=dim, voigt=vint.tolist()))
             except Exception as ex:  # noqa: BLE001
                 res.fail(f"anisotropic integer Voigt input raises dim={dim}", f"{type(ex).__name__}: {str(ex)[:120]}", dict(dim=dim, voigt=vint.tolist()))
+        # the anisotropic class asked for a 2D law from the FULL 3D stiffness of the material (6x6, Voigt or Kelvin-Mandel,
+        # homogeneous / per element / per Gauss point) and its axes: the 2D law is the plane-strain reduction of the 3D law,
+        # i.e. the (xx, yy, xy) block of the independently rotated 4th-order tensor, as in the other law classes
+        for src in ("iso", "ti", "ortho", "triclinic"):
+            psrc = draw(rng, src if src != "triclinic" else "ortho")
+            C3m = np.asarray(law_3d(src if src != "triclinic" else "ortho", psrc).C, float)
+            if src == "triclinic":
+                Gt = np.array([[q(rng, -1, 1) for _ in range(6)] for _ in range(6)])
+                C3m = C3m + 0.25 * (Gt + Gt.T)
+                wt_, _ = np.linalg.eigh(C3m)
+                if not (wt_.min() >= 0.5):
+                    C3m = C3m + (0.5 - wt_.min()) * np.eye(6)
+            useV = bool(rng.random() >= 0.5)
+            shape = rng.choice([(), (), (3,), (2, 2)])
+            npts = int(np.prod(shape)) if shape else 1
+            facs = np.array([1.0, 0.875, 1.25, 0.5][:npts])
+            Qa = rand_rotation(rng, 3) if rng.random() >= 0.25 else np.eye(3)
+            a1a, a2a = Qa[:, 0] * rng.choice([1.0, 2.0, 0.5]), Qa[:, 1] * rng.choice([1.0, 3.0, 0.25])
+            Cin1 = C3m.copy()
+            if useV:
+                Cin1[3:, 3:] /= 2
+                Cin1[:3, 3:] /= np.sqrt(2)
+                Cin1[3:, :3] /= np.sqrt(2)
+            Cin = (facs[:, None, None] * Cin1[None]).reshape(shape + (6, 6)) if shape else Cin1
+            identa = dict(source_law=src, dim=2, voigt=useV, field_shape=list(shape), field_factors=facs.tolist(),
+                          axis_1=a1a.tolist(), axis_2=a2a.tolist(), C_given=Cin1.tolist())
+            res.case((rep, "aniso-2d-from-3d", src, useV, shape))
+            res.count("aniso-2d-from-3d")
+            try:
+                ma = E_.Anisotropic(2, Cin, useV, tuple(a1a), tuple(a2a))
+                Ca, Sa = np.asarray(ma.C, float), np.asarray(ma.S, float)
+            except Exception as ex:  # noqa: BLE001
+                res.fail("anisotropic 2D law from a 3D stiffness raises", f"{type(ex).__name__}: {str(ex)[:150]}", identa)
+                continue
+            if Ca.shape != tuple(shape) + (3, 3) or Sa.shape != tuple(shape) + (3, 3):
+                res.fail("anisotropic 2D law from a 3D stiffness is not a 3x3 law", f"C has shape {Ca.shape}, S has shape {Sa.shape} for a 2D model and a stiffness of shape {np.shape(Cin)}", identa)
+                continue
+            want1 = rotate_mandel(C3m, Qa)[np.ix_(idx, idx)]
+            Ca, Sa = Ca.reshape(npts, 3, 3), Sa.reshape(npts, 3, 3)
+            for e in range(npts):
+                wante = facs[e] * want1
+                erra = np.abs(Ca[e] - wante).max() / np.abs(wante).max()
+                if not (erra <= 1e-8):
+                    res.fail("anisotropic 2D law is not the plane-strain reduction of the 3D stiffness it was given",
+                             f"entry {e}: C of Anisotropic(2, C(6,6) {'Voigt' if useV else 'Kelvin-Mandel'}) differs from the (xx, yy, xy) block of the rotated 3D tensor by a relative {erra:.3e}", identa)
+                    break
+                if not (np.abs(Ca[e] @ Sa[e] - np.eye(3)).max() <= 1e-8):
+                    res.fail("anisotropic 2D law from a 3D stiffness C.S=I", f"entry {e}: |C S - I| = {np.abs(Ca[e] @ Sa[e] - np.eye(3)).max():.3e}", identa)
+                    break
+            else:
+                if src in ("ti", "ortho") and not shape:
+                    # the same material through its own class, plane strain
+                    try:
+                        mo = law_3d(src, psrc, a1=tuple(a1a), a2=tuple(a2a), dim=2, ps=False)
+                        erro = np.abs(Ca[0] - mo.C).max() / np.abs(mo.C).max()
+                    except Exception as ex:  # noqa: BLE001
+                        res.fail(f"law={src} 2D law with axes out of the plane raises", f"constructor raised {ex!r}", identa)
+                        continue
+                    if not (erro <= 1e-8):
+                        res.fail("anisotropic 2D law differs from the plane-strain law of the same material in its own class",
+                                 f"Anisotropic(2, C3D, axes) differs from {src}(2, planeStress=False, axes) by a relative {erro:.3e}", dict(identa, params=psrc))
         # heterogeneous parameter fields, per element (Ne,) and per Gauss point (Ne, nPg), with rotated material axes:
         # every entry of the field law is the scalar law of that entry's parameters
         for kind in ("iso", "ti", "ortho"):
